@@ -117,6 +117,7 @@ def check1d(case):
     # step by step exactly as solve() does, watching for the discontinuous Burgers tie
     sA, sB = mk(), mk()
     gA, gB = fA.copy(), fB.copy()
+
     for s_ in range(case["nsteps"]):
         if dtl and not (np.all(np.isfinite(P.disc.calc_timestep(gA, case["cfl"]))) and np.all(np.isfinite(P.disc.calc_timestep(gB, case["cfl"])))):
             raise Skip("infinite local time step (Burgers cell with u = 0 under dtlocal)")
@@ -143,8 +144,12 @@ def check1d(case):
     if large:
         return dict(nontrivial=nt, labels=labels + ["implicit" if implicit else "explicit", "unknowns>=2000" if n * len(qA) >= 2000 else "unknowns<2000"])
     # and through solve() itself
-    rA_ = mk().solve(fA, case["cfl"], stop={"maxit": case["nsteps"]}, directives=directives)[-1]
-    rB_ = mk().solve(fB, case["cfl"], stop={"maxit": case["nsteps"]}, directives=directives)[-1]
+    uA, uB = mk(), mk()
+    hv = sim.solver_history(case)
+    sim.preuse_solver(P, uA, case, case["cfl"], variant=hv)          # solver objects with a past (the same one: see sim.preuse_solver); solve() starts afresh
+    sim.preuse_solver(P, uB, case, case["cfl"], variant=hv)
+    rA_ = uA.solve(fA, case["cfl"], stop={"maxit": case["nsteps"]}, directives=directives)[-1]
+    rB_ = uB.solve(fB, case["cfl"], stop={"maxit": case["nsteps"]}, directives=directives)[-1]
     if watch is not None:
         watch.release()
     for i in range(len(qA)):
